@@ -15,8 +15,9 @@
   The embedded signature record comes back exactly, `verify` ignores the `signature` field, and C01
   (`complete`) says the honest signature verifies.
 
-  Side conditions: `StableCommand` as in C09 (findings F11, F14, disabled-cache shorthand, JStable
-  content). Interpolating before signing, the YAML leg and real key material / JWS encoding are covered by
+  Side conditions: `StableCommand` as in C09 (findings F11, F14, JStable content; the disabled-cache
+  condition is gone: finding F18 was fixed in the code, commit e8ce0ad, and the condition was removed from
+  `StableCommand`). Interpolating before signing, the YAML leg and real key material / JWS encoding are covered by
   the correspondence and the end-to-end oracle of the harness only (partial there).
 -/
 import GoPipeline.Lemmas.SignedRoundtrip
